@@ -149,6 +149,8 @@ type lruRig struct {
 	next int
 	open map[rueidis.CacheEntry]int // entries whose channel has not been seen closed yet
 	cur  lruView
+	// channels found closed by the last stateful op (id, outcome), sorted by id
+	lastDone []idOut
 	// dead: the real code panicked in this episode; the store (its mutex may still be held)
 	// is never touched again, a fresh one is made at the next reset
 	dead      bool
@@ -268,7 +270,38 @@ func (r *lruRig) done() string {
 			delete(r.open, p)
 		}
 	}
-	return joinDone(d)
+	s := joinDone(d) // sorts d by id
+	r.lastDone = d
+	return s
+}
+
+// idList renders ids for the `!close` oracle line: ascending, comma separated, "-" = none
+func idList(ids []int) string {
+	if len(ids) == 0 {
+		return "-"
+	}
+	sort.Ints(ids)
+	ss := make([]string, len(ids))
+	for i, id := range ids {
+		ss[i] = strconv.Itoa(id)
+	}
+	return strings.Join(ss, ",")
+}
+
+// closeOracle: Close(err) must wake the waiters of every entry that was pending, and only those
+func closeOracle(c *Ctx, failKey string, pending []int, done []idOut, errNo string) {
+	var released []int
+	for _, d := range done {
+		if d.s == fmt.Sprintf("%d=e%s", d.id, errNo) {
+			released = append(released, d.id)
+		}
+	}
+	p, rl := idList(pending), idList(released)
+	op := fmt.Sprintf("!close %s %s", p, rl)
+	c.Emit(op, "ok", false)
+	if p != rl {
+		c.Fail(failKey, op, fmt.Sprintf("Close(e%s): pending entries before the call: %s; entries whose waiters were woken with the error: %s", errNo, p, rl))
+	}
 }
 
 func (r *lruRig) suffix(v lruView) string {
@@ -709,11 +742,20 @@ func (r *lruRig) do(line string) lruObs {
 		}
 	case "close":
 		np := 0
+		var pendingIDs []int
+		behind := false // a completed entry sits behind (nearer to the back than) a pending one
 		for _, e := range obs.pre.list {
 			if e.pend {
 				np++
+				pendingIDs = append(pendingIDs, e.id)
+			} else if np > 0 {
+				behind = true
 			}
 		}
+		if behind {
+			c.Hit("close:completed-behind-pending")
+		}
+		defer closeOracle(c, "lru:close-skipped-pending", pendingIDs, r.lastDone, w[1]) // after the !bound line
 		switch {
 		case obs.pre.closed:
 			c.Hit("close:again")
@@ -1022,6 +1064,36 @@ func (g *lruGen) step() {
 	}
 }
 
+// close: Close(err); half of the time a completed, still valid entry is first promoted behind the pending
+// ones (hits forced to a multiple of 1024 by the hit), so that Close sees pending entries that are NOT the
+// newest list elements
+func (g *lruGen) close() {
+	r := g.r
+	if r.dead {
+		return
+	}
+	if g.rnd(2) == 0 && len(g.ents(true)) > 0 {
+		nowMs := g.now / 1000000
+		var valid []lruEnt
+		for _, e := range g.ents(false) {
+			if e.exp > nowMs {
+				valid = append(valid, e)
+			}
+		}
+		if len(valid) > 0 {
+			e := valid[g.rnd(len(valid))]
+			r.do(fmt.Sprintf("sethits %s %d", hx(e.key), 1024*int64(1+g.rnd(1000))-1))
+			if g.rnd(3) == 0 {
+				r.do(fmt.Sprintf("flights %d %s %s %d", g.now, hx(e.key), hx(e.cmd), g.ttl()))
+			} else {
+				r.do(fmt.Sprintf("flight %s %s %d %d", hx(e.key), hx(e.cmd), g.ttl(), g.now))
+			}
+		}
+	}
+	g.errNo++
+	r.do(fmt.Sprintf("close %d", g.errNo))
+}
+
 func lruEpisode(c *Ctx, r *lruRig) {
 	g := &lruGen{c: c, r: r}
 	max := lruMaxes[c.Rng.IntN(len(lruMaxes))]
@@ -1053,18 +1125,15 @@ func lruEpisode(c *Ctx, r *lruRig) {
 	r.do(fmt.Sprintf("reset %d %d", max, rueidis.VerifEntryBaseSize))
 	for i := 0; i < nOps && !r.dead; i++ {
 		if i == closeAt {
-			g.errNo++
-			r.do(fmt.Sprintf("close %d", g.errNo))
+			g.close()
 		}
 		g.step()
 	}
 	if c.Rng.IntN(4) == 0 {
-		g.errNo++
-		r.do(fmt.Sprintf("close %d", g.errNo))
+		g.close()
 		if c.Rng.IntN(2) == 0 {
 			g.step()
-			g.errNo++
-			r.do(fmt.Sprintf("close %d", g.errNo))
+			g.close()
 		}
 	}
 	if r.dead {
@@ -1089,11 +1158,35 @@ func lruPrologue(r *lruRig) {
 	r.do(fmt.Sprintf("flight %s %s 10000000000 %d", hx("d"), hx("GET"), now))
 }
 
+// lruPrologueClose: Close with a completed entry BEHIND a pending one. B is completed, A pending (list [B, A]);
+// B's 1024th hit moves it to the back (list [A, B]) - once through Flight's fast path, once through the
+// first loop of Flights; a second caller waits on A; Close must fail A's flight.
+func lruPrologueClose(r *lruRig) {
+	now := int64(1700000000000000000)
+	const hour = 3600000000000
+	for _, via := range []string{"flight", "flights"} {
+		r.do(fmt.Sprintf("reset 20000 %d", rueidis.VerifEntryBaseSize))
+		now += 1000000
+		r.do(fmt.Sprintf("flight %s %s %d %d", hx("B"), hx("GET"), hour, now))
+		r.do(fmt.Sprintf("update %s %s 1 %d 0", hx("B"), hx("GET"), rueidis.VerifMessageStructSize+8))
+		r.do(fmt.Sprintf("flight %s %s %d %d", hx("A"), hx("GET"), hour, now))
+		r.do(fmt.Sprintf("sethits %s 1023", hx("B")))
+		if via == "flight" {
+			r.do(fmt.Sprintf("flight %s %s %d %d", hx("B"), hx("GET"), hour, now))
+		} else {
+			r.do(fmt.Sprintf("flights %d %s %s %d", now, hx("B"), hx("GET"), hour))
+		}
+		r.do(fmt.Sprintf("flight %s %s %d %d", hx("A"), hx("GET"), hour, now))
+		r.do("close 7")
+	}
+}
+
 func runLru(c *Ctx) {
 	r := &lruRig{c: c}
 	r.reset(0)
 	lruStateless(c, r)
 	lruPrologue(r)
+	lruPrologueClose(r)
 	for ep := 0; ep < c.N; ep++ {
 		lruEpisode(c, r)
 	}
